@@ -201,3 +201,93 @@ Section PROOF.
     induction H as [|i S f R Hr IH Ht Hs]; [exact inv0|]. exact (step_inv i S f R IH Ht Hs).
   Qed.
 End PROOF.
+
+(* ================================================================ a recorded run of the real loop that passes run_model is a path of reach *)
+Lemma tr_eqb_eq a b : tr_eqb a b = true <-> a = b.
+Proof.
+  unfold tr_eqb. destruct a as [ia ka], b as [ib kb]. cbn [tid tkey]. rewrite andb_true_iff, N.eqb_eq, Z.eqb_eq. split.
+  - intros [-> ->]. reflexivity.
+  - intros H. injection H as -> ->. split; reflexivity.
+Qed.
+Lemma mem_In t l : mem t l = true <-> In t l.
+Proof.
+  unfold mem. rewrite existsb_exists. split.
+  - intros [x [Hx E]]. apply tr_eqb_eq in E. now subst x.
+  - intros H. exists t. split; [assumption|]. now apply tr_eqb_eq.
+Qed.
+Lemma nodup_b_NoDup l : nodup_b l = true -> NoDup l.
+Proof.
+  induction l as [|x l IH]; intros H; [constructor|]. cbn [nodup_b] in H. apply andb_true_iff in H. destruct H as [H1 H2].
+  constructor; [|now apply IH]. intros Hin. apply mem_In in Hin. rewrite Hin in H1. discriminate.
+Qed.
+Lemma sorted_b_sorted l : sorted_b l = true -> newest_first l.
+Proof.
+  unfold newest_first. induction l as [|x l IH]; intros H; [constructor|]. cbn [sorted_b] in H. apply andb_true_iff in H. destruct H as [H1 H2].
+  constructor; [now apply IH|]. rewrite forallb_forall in H1. apply Forall_forall. intros y Hy. apply Z.leb_le. now apply H1.
+Qed.
+Lemma topk_b_topk k U R : topk_b k U R = true -> topk k U R.
+Proof.
+  unfold topk_b, topk. intros H. apply andb_true_iff in H. destruct H as [H H4]. apply andb_true_iff in H. destruct H as [H H3].
+  apply andb_true_iff in H. destruct H as [H1 H2]. split; [now apply nodup_b_NoDup|]. split; [|split].
+  - intros x Hx. rewrite forallb_forall in H2. apply mem_In. now apply H2.
+  - now apply Nat.eqb_eq.
+  - intros x y Hx Hnx Hy. rewrite forallb_forall in H4. specialize (H4 x Hx). apply orb_true_iff in H4. destruct H4 as [H4|H4].
+    + apply mem_In in H4. contradiction.
+    + rewrite forallb_forall in H4. apply Z.leb_le. now apply H4.
+Qed.
+
+Theorem run_model_reach all part k portions from0 : forall steps i W f n W' f',
+  reach all part k from0 i W f -> run_model all part k portions i W f steps = RunOk n W' f' -> reach all part k from0 n W' f'.
+Proof.
+  induction steps as [|s rest IH]; intros i W f n W' f' Hr H; cbn [run_model] in H.
+  - injection H as <- <- <-. exact Hr.
+  - destruct (negb (N.eqb (st_max s) portions && N.eqb (st_i s) i)); [discriminate|].
+    destruct (negb (list_N_eqb (st_cached s) (map tid W))); [discriminate|].
+    destruct (negb (Z.eqb (st_from s) f)); [discriminate|].
+    destruct (resolve all (st_rows s)) as [R|]; [|discriminate].
+    destruct (topk_b k (V all part i W f) R && sorted_b R) eqn:E; [|discriminate].
+    apply andb_true_iff in E. destruct E as [E1 E2].
+    apply (IH (i + 1)%N R (next_from k R f) n W' f'); [|exact H].
+    apply (reachS all part k from0 i W f R Hr); [now apply topk_b_topk|now apply sorted_b_sorted].
+Qed.
+
+Lemma run_model_bad_code all part k portions : forall steps i W f st code e g,
+  run_model all part k portions i W f steps = RunBad st code e g -> code <> 0%Z.
+Proof.
+  induction steps as [|s rest IH]; intros i W f st code e g H; cbn [run_model] in H; [discriminate|].
+  destruct (negb (N.eqb (st_max s) portions && N.eqb (st_i s) i)); [injection H as _ <- _ _; discriminate|].
+  destruct (negb (list_N_eqb (st_cached s) (map tid W))); [injection H as _ <- _ _; discriminate|].
+  destruct (negb (Z.eqb (st_from s) f)); [injection H as _ <- _ _; discriminate|].
+  destruct (resolve all (st_rows s)) as [R|]; [|injection H as _ <- _ _; discriminate].
+  destruct (topk_b k (V all part i W f) R && sorted_b R); [|injection H as _ <- _ _; discriminate].
+  eapply IH; exact H.
+Qed.
+
+Lemma ids_distinct_NoDup l : ids_distinct l = true -> NoDup l.
+Proof.
+  induction l as [|x l IH]; intros H; [constructor|]. cbn [ids_distinct] in H. apply andb_true_iff in H. destruct H as [H1 H2].
+  constructor; [|now apply IH]. intros Hin. apply negb_true_iff in H1. assert (Hex : existsb (N.eqb x) l = true) by (apply existsb_exists; exists x; split; [assumption|apply N.eqb_refl]).
+  congruence.
+Qed.
+
+(* the judgement the check computes on every recorded run: code 0 means the run of the real loop is a path of the model's relation,
+   hence (reach_topk) its answer is a top-`limit` selection of all matching traces of the portions processed *)
+Theorem loop_code_sound c n : loop_code c = (0%Z, n, 0%Z, 0%Z) ->
+  exists W f, reach (lc_all c) (part_of (lc_parts c)) (lc_k c) (lc_from0 c) n W f /\ map tid W = lc_final c
+              /\ topk (lc_k c) (U (lc_all c) (part_of (lc_parts c)) (lc_from0 c) n) W.
+Proof.
+  unfold loop_code.
+  destruct (ids_distinct (map tid (lc_all c)) && Nat.ltb 0 (lc_k c) && N.eqb (N.of_nat (List.length (lc_steps c))) (lc_portions c)) eqn:Eg; cbn [negb]; [|discriminate].
+  apply andb_true_iff in Eg. destruct Eg as [Eg _]. apply andb_true_iff in Eg. destruct Eg as [Eid Ek].
+  destruct (run_model _ _ _ _ _ _ _ _) as [n' W f|st code e g] eqn:Er.
+  - destruct (negb (list_N_eqb (lc_final c) (map tid W))) eqn:Ef; [discriminate|].
+    destruct (negb (topk_b _ _ W)) eqn:Et; [discriminate|]. intros H. injection H as <-.
+    assert (Hr : reach (lc_all c) (part_of (lc_parts c)) (lc_k c) (lc_from0 c) n' W f)
+      by (eapply run_model_reach; [apply reach0|exact Er]).
+    exists W, f. split; [exact Hr|]. split.
+    + apply negb_false_iff in Ef. clear -Ef. revert Ef. generalize (map tid W) as b. induction (lc_final c) as [|x a IH]; intros [|y b] H; cbn [list_N_eqb] in H; try discriminate; [reflexivity|].
+      apply andb_true_iff in H. destruct H as [H1 H2]. apply N.eqb_eq in H1. subst y. f_equal. now apply IH.
+    + apply Nat.ltb_lt in Ek.
+      exact (reach_topk (lc_all c) (part_of (lc_parts c)) (lc_k c) (lc_from0 c) (ids_distinct_NoDup _ Eid) Ek n' W f Hr).
+  - intros H. injection H as -> _ _ _. exfalso. exact (run_model_bad_code _ _ _ _ _ _ _ _ _ _ _ _ Er eq_refl).
+Qed.
